@@ -42,7 +42,7 @@ class C16(Check):
     real = ['rxsci.compression.z / zstd compress() and decompress() (current working tree)', 'zlib, zstandard (C libraries)', 'RxPY Subject/pipe']
     stubs = ['producer of the chunks', 'transport re-cutting / truncating the compressed bytes', 'final subscriber']
     assumptions = ['reference decoders (gzip module, zstandard stream reader) are trusted']
-    probe_names = ('nested_same_operator', 'concurrent_streams', 'one_chunk_inflates>1MiB', 'codec:gzip', 'codec:zstd', 'empty_list', 'empty_chunk_in', 'empty_segment', 'empty_segment_after_end', 'one_byte_segments',
+    probe_names = ('buffer_size_aligned_chunks', 'nested_same_operator', 'concurrent_streams', 'one_chunk_inflates>1MiB', 'codec:gzip', 'codec:zstd', 'empty_list', 'empty_chunk_in', 'empty_segment', 'empty_segment_after_end', 'one_byte_segments',
                    'incompressible', 'input>=64KiB', 'truncations_all_offsets', 'swept_all_single_cuts')
     quick_budget = 20.0
     quick_cap = 100000
@@ -114,6 +114,16 @@ class C16(Check):
         cuts = self.schedules(case, blob)
         scheds = [cuts]
         pinned = case.get('cuts') is not None
+        if not pinned and n > 16384:
+            # fixed-size re-chunkings and tails aligned on the buffer sizes the codecs themselves use
+            consts = sorted(set([16384, 32768, 65536, 131072, zstandard.DECOMPRESSION_RECOMMENDED_INPUT_SIZE,
+                                 zstandard.DECOMPRESSION_RECOMMENDED_OUTPUT_SIZE, zstandard.COMPRESSION_RECOMMENDED_INPUT_SIZE,
+                                 zstandard.COMPRESSION_RECOMMENDED_OUTPUT_SIZE]))
+            for cst in consts:
+                if cst < n:
+                    scheds.append(list(range(cst, n, cst)))               # every chunk exactly `cst` bytes, the rest last
+                    scheds.append([n - k * cst for k in range(n // cst, 0, -1)])   # the LAST chunks exactly `cst` bytes
+            p['buffer_size_aligned_chunks'] += 1
         if n <= 400 and not pinned:
             scheds += [[k] for k in range(0, n + 1)] + [[k, k] for k in (0, n // 2, n)]
             p['swept_all_single_cuts'] += 1
